@@ -60,8 +60,13 @@ def check_reachability(ctx):
             funcs = set()
             for v in variants(name):
                 targets, ev, res = lookup_of(ctx.prog, v)
+                if ev.issues:
+                    raise AnalysisError(f"C18.1: load_dataset not canonicalisable for '{v}': {ev.issues[:2]}")
                 if len(targets) != 1:
-                    ctx.fail('C18.1', f"{v}: load_dataset looks up one attribute", f"lookups: {sorted(targets)}", BASE, BASE + '.load_dataset', f"lookup:{v}")
+                    opaque = [e for e in ev.events if e.kind == 'apply' and isinstance(e.data.get('fn'), Term) and e.data['fn'].head not in ('getattr',)]
+                    ctx.check(None if (not targets and opaque) else False, 'C18.1', f"{v}: load_dataset looks up one attribute",
+                              f"lookups: {sorted(targets)}" + (f"; the loader is obtained by {show(opaque[0].data['fn'], 120)}: lookup idiom not recognised" if opaque else ''),
+                              BASE, BASE + '.load_dataset', f"lookup:{v}")
                     continue
                 (mod, attr), = targets
                 if mod not in ns_cache:
